@@ -326,6 +326,48 @@ def r20_8(ctx):
     ctx.ob("R20.8", "text-merges-into-the-node-before-the-sibling", bad is None and k >= 1, bad or "%d merge attempts, all into children[index of sibling - 1]" % k, "rcdom RcDom::append_before_sibling")
 
 
+def r20_10(ctx):
+    """get_a_selects_enabled_selectedcontent: 'the first selectedcontent element descendant of select in TREE ORDER' - the search
+    visits descendants depth first, parents before children, siblings left to right.  With a work list that means: the children
+    of the node just taken are put at the end nodes are taken FROM, in an order that makes the first child the next one taken"""
+    key, pcs = nfq.cells(ctx, AREA, "::get_a_selects_enabled_selectedcontent")
+    bad = None
+    n = 0
+    for pc in nfq.feasible(pcs):
+        acts = [(a, tuple(str(x) for x in args)) for a, args in pc["actions"]]
+        names = [a for a, _ in acts]
+        takes = [a for a in names if re.search(r"\.(pop_front|pop_back|pop)$", a)]
+        if not takes or any(v is False and re.search(r"\.(pop_front|pop_back|pop)\(\) matches Some\(_\)", g) for g, v in pc["guards"].items()):
+            continue
+        n += 1
+        front = takes[0].endswith(".pop_front")
+        i0 = names.index(takes[0])
+        # how the children of the taken node are added (after the take, inside the loop)
+        adds = []
+        src_rev = None
+        for a, args in acts[i0 + 1:]:
+            if a.startswith("loop-begin for _ in ") and ".children" in a:
+                src_rev = ".rev()" in a
+            elif re.search(r"\.(extend|append)$", a) and args and ".children" in args[0]:
+                adds.append(("back", ".rev()" in args[0]))
+            elif re.search(r"\.(push_back|push)$", a) and src_rev is not None:
+                adds.append(("back", src_rev))
+            elif a.endswith(".push_front") and src_rev is not None:
+                adds.append(("front", src_rev))
+            elif a.endswith(".extend_front") or a.endswith(".prepend"):
+                adds.append(("front?", None))
+        if not adds:
+            bad = "the children of a visited node are not added to the work list"
+            continue
+        end, rev = adds[0]
+        ok = (front and end == "front" and rev is True) or ((not front) and end == "back" and rev is True)
+        if not ok:
+            how = "level by level (children appended behind the waiting siblings)" if front and end == "back" else "right to left" if rev is False and ((front and end == "front") or (not front and end == "back")) else "in an order that is not tree order"
+            bad = "nodes are taken from the %s of the work list and the children of a node are added at the %s%s: descendants are visited %s, so 'the first selectedcontent descendant' is not the first in tree order (a shallow later one wins over a nested earlier one)" % (
+                "front" if front else "back", end, " reversed" if rev else "", how)
+    ctx.ob("R20.10", "selectedcontent-search-in-tree-order", bad is None and n >= 2, bad or "depth first, parents before children, left to right", "rcdom Node::get_a_selects_enabled_selectedcontent")
+
+
 def r20_9(ctx):
     """clone_an_option_into_selectedcontent(selectedcontent): 'replace all' - on EVERY path the old children of selectedcontent are
     taken out (and lose their parent link) and the clones of the option's children are put in their place; an option without
@@ -347,6 +389,8 @@ def r20_9(ctx):
 
 
 def run(ctx):
+    ctx.rule("R20.10", "the select's selectedcontent is the first such descendant in tree order (depth-first search)")
+    ctx.guard("R20.10", "tree-order", lambda: r20_10(ctx))
     ctx.rule("R20.9", "cloning an option into selectedcontent replaces all of the target's children on every path")
     ctx.guard("R20.9", "replace-all", lambda: r20_9(ctx))
     ctx.rule("R20.8", "append_before_sibling merges text only into the node directly before the sibling")
